@@ -180,7 +180,7 @@ func Execute(sc Scenario, pubs []*chain.Pub) (log []gate.Event, key, detail stri
 	if sc.Seg > 0 {
 		opts = append(opts, dagsync.SegmentDepthLimit(int64(sc.Seg)))
 	}
-	s.Record(gate.Event{Ev: "reset", N: sc.Sem, P: sc.Pubs, C: sc.Ads})
+	s.Record(gate.Event{Ev: "reset", N: sc.Sem, P: sc.Pubs, C: sc.Ads, G: sc.Seg})
 	// NewSubscriber starts the watcher, the distributor and the cleaner: they park at their first hooks.
 	var err error
 	s.Go("new", func() { r.sub, err = dagsync.NewSubscriber(nil, r.dst.LinkSystem(), opts...) })
